@@ -475,8 +475,29 @@ func genWalkers(repo string) (string, error) {
 	constStrings = p.stringConsts()
 	c := &wCtx{p: p, readers: map[string]bool{}}
 	var fds []*ast.FuncDecl
+	// the reader functions: those that are handed the decoder of the part being read, and the entry points that
+	// create that decoder and hand it to one of them (parseDocument).  A function that walks a decoder of its own
+	// without calling a reader function (helpers that look into other parts) is not part of this walk.
 	for _, fd := range p.allFuncs() {
-		if fd.Body != nil && (isDecoderParam(fd) || callsToken(fd)) && fd.Name.Name != "MarshalXML" && fd.Name.Name != "UnmarshalXML" {
+		if fd.Body != nil && isDecoderParam(fd) && fd.Name.Name != "MarshalXML" && fd.Name.Name != "UnmarshalXML" {
+			c.readers[fd.Name.Name] = true
+			fds = append(fds, fd)
+		}
+	}
+	for _, fd := range p.allFuncs() {
+		if fd.Body == nil || c.readers[fd.Name.Name] || !callsToken(fd) || fd.Name.Name == "MarshalXML" || fd.Name.Name == "UnmarshalXML" {
+			continue
+		}
+		handsOn := false
+		ast.Inspect(fd.Body, func(n ast.Node) bool {
+			if ce, ok := n.(*ast.CallExpr); ok {
+				if se, ok := ce.Fun.(*ast.SelectorExpr); ok && c.readers[se.Sel.Name] {
+					handsOn = true
+				}
+			}
+			return true
+		})
+		if handsOn {
 			c.readers[fd.Name.Name] = true
 			fds = append(fds, fd)
 		}
